@@ -84,7 +84,8 @@ class tcp_opt (object):
     elif self.type == tcp_opt.SACKPERM:
       return struct.pack('!BB',self.type,2)
     elif self.type == tcp_opt.SACK:
-      return struct.pack("!" + "II" * len(self.val),
+      return struct.pack("!BB" + "II" * len(self.val), self.type,
+                         2 + 8 * len(self.val),
                          *[x for p in self.val for x in p])
     elif self.type == tcp_opt.TSOPT:
       return struct.pack('!BBII',self.type,10,self.val[0],self.val[1])
@@ -119,7 +120,7 @@ class tcp_opt (object):
     elif o.type == tcp_opt.SACK:
       if length >= 2 and ((length-2) % 8) == 0:
         num = (length - 2) // 8
-        val = struct.unpack("!" + "II" * num, arr[i+2:])
+        val = struct.unpack("!" + "II" * num, arr[i+2:i+length])
         val = [(x,y) for x,y in zip(val[0::2],val[1::2])]
         o.val = val
       else:
